@@ -944,6 +944,10 @@ ares_status_t ares_requeue_query(ares_query_t *query, const ares_timeval_t *now,
 {
   ares_channel_t *channel   = query->channel;
   size_t          max_tries = ares_slist_len(channel->servers) * channel->tries;
+  /* Remember the server the failed attempt went to.  If this ends the query
+   * (always the case for a server probe, which never retries) the server's
+   * probe_pending mark must be cleared or it would never be probed again. */
+  ares_server_t  *server    = (query->conn != NULL) ? query->conn->server : NULL;
 
   ares_query_remove_from_conn(query);
 
@@ -967,7 +971,7 @@ ares_status_t ares_requeue_query(ares_query_t *query, const ares_timeval_t *now,
     query->error_status = ARES_ETIMEOUT;
   }
 
-  end_query(channel, NULL, query, query->error_status, dnsrec);
+  end_query(channel, server, query, query->error_status, dnsrec);
   return ARES_ETIMEOUT;
 }
 
